@@ -612,6 +612,9 @@ func matrixCells() []cell {
 		{"array.rules.minItems+object", &j5sgen.Type{Kind: "array", Items: &j5sgen.Type{Kind: "object", InlineObject: &j5sgen.Object{}}, Rules: &j5sgen.Rules{MinItems: p(uint64(1))}}},
 		{"map.rules.minPairs", &j5sgen.Type{Kind: "map", Items: &j5sgen.Type{Kind: "string"}, Rules: &j5sgen.Rules{MinPairs: p(uint64(1))}}},
 		{"map.rules.maxPairs", &j5sgen.Type{Kind: "map", Items: &j5sgen.Type{Kind: "bytes"}, Rules: &j5sgen.Rules{MaxPairs: p(uint64(2))}}},
+		{"array.ext.singleForm", &j5sgen.Type{Kind: "array", Items: &j5sgen.Type{Kind: "string"}, SingleForm: "tag"}},
+		{"array.ext.singleForm+object", &j5sgen.Type{Kind: "array", Items: &j5sgen.Type{Kind: "object", InlineObject: &j5sgen.Object{}}, SingleForm: "item"}},
+		{"map.ext.singleForm", &j5sgen.Type{Kind: "map", Items: &j5sgen.Type{Kind: "string"}, SingleForm: "entry"}},
 	} {
 		cells = append(cells, cell{feature: cr.name + "|container|none", field: &j5sgen.Field{Name: "value", Type: cr.ty}})
 	}
